@@ -111,16 +111,23 @@ theorem ArgValRel.of_eq_scalar {t : ParamTy} (ht : t.isScalar = true) (c : GoVal
 theorem sprint_repEq_false {a a' : GoVal} (h : RepEq false a a') : sprint a = sprint a' := by
   rw [← sprint_norm a, ← sprint_norm a', h]
 
+/-- printing in Go syntax (`fmt.Sprint(values.ResolveDrops(·))`) does not see the representation — drops nested
+    in containers included (`d = true`) -/
+theorem sprintR_repEq {d : Bool} {a a' : GoVal} (h : RepEq d a a') : sprintR a = sprintR a' := by
+  unfold sprintR
+  rw [← sprintR_norm d a, ← sprintR_norm d a', h]
+
 /-- a scalar parameter receives the same value from related inputs -/
 theorem convert_scalar_rel {t : ParamTy} (ht : t.isScalar = true) {a a' : GoVal} (h : URel false a a') :
     convert a t = convert a' t := by
   rcases repEq_false_cases h.2.2 with rfl | ⟨h1, h2⟩
   · rfl
   · have hs := sprint_repEq_false h.2.2
+    have hsR := sprintR_repEq h.2.2
     unfold convert
     rw [unw_toLiquid h.1, unw_toLiquid h.2.1]
     cases a <;> simp [rigidF] at h1 <;> cases a' <;> simp [rigidF] at h2 <;> cases t <;>
-      simp [ParamTy.isScalar] at ht <;> simp [hs]
+      simp [ParamTy.isScalar] at ht <;> simp [hs, hsR]
 
 theorem convert_anys_shape {a c : GoVal} (h : convert a .anys = .ok c) : ∃ ys, c = .slice .any ys := by
   unfold convert at h
@@ -434,6 +441,95 @@ theorem compact_respects (t : Bool) : ImplRespects t [.val .anys] (eager compact
   simp only [eager, FilterImpl.ofEager, FilterImpl.ofEager.collect, Res.bind, compact, ret]
   exact exrel_ok (slice_any_rel (compactF_rel hn))
 
+/-! ### `uniq` (after `fixes/nested-drops-resolved`: elements are compared by what they hold) -/
+
+mutual
+theorem hasPtr_norm (d : Bool) : ∀ v : GoVal, hasPtr (v.norm d) = hasPtr v
+  | .drop v => by
+    rw [norm]; split
+    · rfl
+    · simp only [hasPtr]; exact hasPtr_norm d v
+  | .slice _ xs => by simp only [norm, hasPtr, hasPtrList_norm d xs]
+  | .array _ xs => by simp only [norm, hasPtr, hasPtrList_norm d xs]
+  | .map kt vt kvs => by
+    cases h : isRec (.map kt vt kvs) with
+    | true => rw [norm_of_isRec h]
+    | false => rw [norm_map_nonrec h]; simp only [hasPtr, hasPtrKVs_norm d kvs]
+  | .nil | .bool _ | .int _ _ | .flt _ _ | .str _ | .bytes _
+  | .mapSlice _ | .keyedMap _ | .range _ _ | .ptr _ | .nilPtr
+  | .struct _ | .time _ => by simp [norm]
+theorem hasPtrList_norm (d : Bool) : ∀ xs : List GoVal, hasPtr.hasPtrList (normList d xs) = hasPtr.hasPtrList xs
+  | [] => rfl
+  | x :: xs => by simp only [normList, hasPtr.hasPtrList, hasPtr_norm d x, hasPtrList_norm d xs]
+theorem hasPtrKVs_norm (d : Bool) : ∀ kvs : List (GoVal × GoVal), hasPtr.hasPtrKVs (normKVs d kvs) = hasPtr.hasPtrKVs kvs
+  | [] => rfl
+  | (k, v) :: r => by simp only [normKVs, hasPtr.hasPtrKVs, hasPtr_norm d v, hasPtrKVs_norm d r]
+end
+
+mutual
+/-- what `uniq` compares does not see the representation: typed containers, and drops at every depth -/
+theorem uniqForm_norm (d : Bool) : ∀ v : GoVal, uniqForm (v.norm d) = uniqForm v
+  | .drop v => by
+    rw [norm]; split
+    · rfl
+    · simp only [uniqForm]; exact uniqForm_norm d v
+  | .slice _ xs => by simp only [norm, uniqForm, uniqFormList_norm d xs]
+  | .array _ xs => by simp only [norm, uniqForm, uniqFormList_norm d xs]
+  | .map kt vt kvs => by
+    cases h : isRec (.map kt vt kvs) with
+    | true => rw [norm_of_isRec h]
+    | false => rw [norm_map_nonrec h]; simp only [uniqForm, uniqFormVals_norm d kvs]
+  | .nil | .bool _ | .int _ _ | .flt _ _ | .str _ | .bytes _
+  | .mapSlice _ | .keyedMap _ | .range _ _ | .ptr _ | .nilPtr
+  | .struct _ | .time _ => by simp [norm]
+theorem uniqFormList_norm (d : Bool) : ∀ xs : List GoVal, uniqFormList (normList d xs) = uniqFormList xs
+  | [] => rfl
+  | x :: xs => by simp only [normList, uniqFormList, uniqForm_norm d x, uniqFormList_norm d xs]
+theorem uniqFormVals_norm (d : Bool) : ∀ kvs : List (GoVal × GoVal), uniqFormVals (normKVs d kvs) = uniqFormVals kvs
+  | [] => rfl
+  | (k, v) :: r => by simp only [normKVs, uniqFormVals, uniqForm_norm d v, uniqFormVals_norm d r]
+end
+
+/-- representation-equivalent elements (drops nested in them included, `d = true`) are one element to `uniq` -/
+theorem uniqKey_repEq {d : Bool} {x x' : GoVal} (h : RepEq d x x') : uniqKey x = uniqKey x' := by
+  unfold uniqKey
+  rw [← uniqForm_norm d x, ← uniqForm_norm d x', h]
+
+theorem hasPtr_repEq {d : Bool} {x x' : GoVal} (h : RepEq d x x') : hasPtr x = hasPtr x' := by
+  rw [← hasPtr_norm d x, ← hasPtr_norm d x', h]
+
+theorem any_hasPtr_rel {d : Bool} : ∀ {ys ys' : List GoVal}, normList d ys = normList d ys' →
+    ys.any hasPtr = ys'.any hasPtr
+  | [], [], _ => rfl
+  | [], _ :: _, h => by simp [normList] at h
+  | _ :: _, [], h => by simp [normList] at h
+  | y :: ys, y' :: ys', h => by
+    simp only [normList, List.cons.injEq] at h
+    simp only [List.any_cons, hasPtr_repEq h.1, any_hasPtr_rel h.2]
+
+theorem uniqOn_rel {d : Bool} : ∀ {ys ys' : List GoVal}, normList d ys = normList d ys' → ∀ seen : List String,
+    normList d (uniqOn uniqKey seen ys) = normList d (uniqOn uniqKey seen ys')
+  | [], [], _, _ => rfl
+  | [], _ :: _, h, _ => by simp [normList] at h
+  | _ :: _, [], h, _ => by simp [normList] at h
+  | y :: ys, y' :: ys', h, seen => by
+    simp only [normList, List.cons.injEq] at h
+    simp only [uniqOn, uniqKey_repEq h.1]
+    split
+    · exact uniqOn_rel h.2 seen
+    · simp only [normList, h.1, uniqOn_rel h.2 _]
+
+/-- `uniq` respects representation equivalence: it no longer observes the Go types of nested containers -/
+theorem uniq_respects (t : Bool) : ImplRespects t [.val .anys] (eager uniq) := by
+  intro cs cs' h
+  obtain ⟨ys, ys', rfl, rfl, hn⟩ := argsRel_anys1 h
+  simp only [eager, FilterImpl.ofEager, FilterImpl.ofEager.collect, Res.bind, uniq, any_hasPtr_rel hn]
+  cases ys'.any hasPtr with
+  | true => exact RRel.of_eq (fun e => by cases e <;> simp [ExRel, RepEq.refl]) rfl
+  | false =>
+    simp only [Bool.false_eq_true, if_false, ret, uniqF]
+    exact exrel_ok (slice_any_rel (uniqOn_rel hn []))
+
 end ArrF
 
 namespace ArrF
@@ -455,7 +551,7 @@ theorem sprintNonNil_rel : ∀ {ys ys' : List GoVal}, normList false ys = normLi
   | _ :: _, [], h => by simp [normList] at h
   | y :: ys, y' :: ys', h => by
     simp only [normList, List.cons.injEq] at h
-    simp only [sprintNonNil, isNil_repEq_false h.1, sprint_repEq_false h.1, sprintNonNil_rel h.2]
+    simp only [sprintNonNil, isNil_repEq_false h.1, sprintR_repEq h.1, sprintNonNil_rel h.2]
 
 theorem join_respects (t : Bool) : ImplRespects t [.val .anys, .fn .str] (eager join) := by
   intro cs cs' h
@@ -661,24 +757,23 @@ theorem goodEntry_of_sig (t : Bool) {name : Bytes} {f : FilterImpl} (sg0 : Filte
   exact h
 
 /-- the filters that *observe the Go representation* and therefore do not respect the equivalence:
-    `uniq` compares elements by Go interface equality; `type` prints the Go type (`[]int` against
-    `[]interface {}`); `json` and `inspect` marshal the Go value (a `[]uint8` is base64 text, a
-    `map[any]any` is rejected, where the generic slice / the string-keyed map print their elements).
-    Counterexamples in `Proofs/C18.lean`. -/
-def reprFilters : List Bytes := [ArrF.bn "uniq", JsonF.bn "json", JsonF.bn "inspect", JsonF.bn "type"]
+    `type` prints the Go type (`[]int` against `[]interface {}`); `json` and `inspect` marshal the Go value
+    (a `[]uint8` is base64 text, a `map[any]any` is rejected, where the generic slice / the string-keyed map
+    print their elements). Counterexamples in `Proofs/C18.lean`. (`uniq` was on this list until
+    `fixes/nested-drops-resolved`: it compared nested containers by their Go types; `ArrF.uniq_respects`.) -/
+def reprFilters : List Bytes := [JsonF.bn "json", JsonF.bn "inspect", JsonF.bn "type"]
 
 /-- the filters whose bodies are not shown to respect the equivalence exactly: `reprFilters` do not;
     `sort` and `sort_natural` are open (they do up to `unmodelled`: `Proofs/RepEqSort.lean`) -/
-def openFilters : List Bytes := [ArrF.bn "sort", ArrF.bn "uniq", ArrF.bn "sort_natural",
+def openFilters : List Bytes := [ArrF.bn "sort", ArrF.bn "sort_natural",
   JsonF.bn "json", JsonF.bn "inspect", JsonF.bn "type"]
 
 theorem strGlue_scalar : StrGlue.names.all (fun n => scalarSigB n.toUTF8.toList) = true := by decide +kernel
 
-/-- every entry of the table is good, except the excluded names; the six open entries are good
+/-- every entry of the table is good, except the excluded names; the five open entries are good
     when they are not excluded and shown good -/
 theorem goodEntry_table (t : Bool) (excl : List Bytes)
     (hs : ArrF.bn "sort" ∉ excl → goodEntry t (ArrF.bn "sort", ArrF.eager ArrF.sort))
-    (hu : ArrF.bn "uniq" ∉ excl → goodEntry t (ArrF.bn "uniq", ArrF.eager ArrF.uniq))
     (hnat : ArrF.bn "sort_natural" ∉ excl → goodEntry t (ArrF.bn "sort_natural", ArrF.eager ArrF.sortNatural))
     (hjson : JsonF.bn "json" ∉ excl → goodEntry t (JsonF.bn "json", JsonF.json))
     (hinsp : JsonF.bn "inspect" ∉ excl → goodEntry t (JsonF.bn "inspect", JsonF.inspect))
@@ -713,7 +808,7 @@ theorem goodEntry_table (t : Bool) (excl : List Bytes)
     · exact hs hn
     · exact goodEntry_of_sig t ⟨ArrF.bn "first", [.val .anys], false⟩ (by decide +kernel) (ArrF.first_respects t)
     · exact goodEntry_of_sig t ⟨ArrF.bn "last", [.val .anys], false⟩ (by decide +kernel) (ArrF.last_respects t)
-    · exact hu hn
+    · exact goodEntry_of_sig t ⟨ArrF.bn "uniq", [.val .anys], false⟩ (by decide +kernel) (ArrF.uniq_respects t)
     · exact hnat hn
   · simp only [JsonF.impls, List.mem_cons, List.not_mem_nil, or_false] at he
     rcases he with rfl | rfl | rfl
@@ -726,7 +821,7 @@ theorem goodEntry_table (t : Bool) (excl : List Bytes)
     exact goodEntry_of_scalar t (by decide +kernel) _
 
 theorem goodEntry_std (t : Bool) : ∀ e ∈ stdFilterImpls, e.1 ∉ openFilters → goodEntry t e :=
-  goodEntry_table t openFilters (fun h => absurd (by simp [openFilters]) h) (fun h => absurd (by simp [openFilters]) h)
+  goodEntry_table t openFilters (fun h => absurd (by simp [openFilters]) h)
     (fun h => absurd (by simp [openFilters]) h) (fun h => absurd (by simp [openFilters]) h)
     (fun h => absurd (by simp [openFilters]) h) (fun h => absurd (by simp [openFilters]) h)
 
@@ -745,7 +840,7 @@ theorem lookupImpl_mem {tbl : List (Bytes × FilterImpl)} {name : Bytes} {f : Fi
     subst hp h
     exact hm
 
-/-- every standard filter other than `sort`, `uniq`, `sort_natural`, `json`, `inspect`, `type` respects representation
+/-- every standard filter other than `sort`, `sort_natural`, `json`, `inspect`, `type` respects representation
     equivalence (`d = false`), for every name (registered or not) -/
 theorem filterRespects_std (t : Bool) (name : Bytes) (h : name ∉ openFilters) : FilterRespects t name :=
   filterRespects_of_impl name (fun sg f hs hf => goodEntry_std t (name, f) (lookupImpl_mem hf) h sg hs)
@@ -763,7 +858,7 @@ theorem stdPrimsOnly_all : stdPrimsOnly (fun _ => true) = stdPrims := by
   simp [stdPrimsOnly]
 
 /-- the standard comparisons respect the equivalence, and so does every allowed filter, given
-    that the allowed ones among `sort`, `uniq`, `sort_natural` do -/
+    that the allowed ones among `sort`, `sort_natural` (and `json`, `inspect`, `type`) do -/
 theorem stdPrimsOnly_respects (allowed : Bytes → Bool)
     (hopen : ∀ n, n ∈ openFilters → allowed n = true → FilterRespects true n) :
     PrimsRespect true false (stdPrimsOnly allowed) :=
@@ -781,10 +876,10 @@ theorem stdPrimsOnly_respects (allowed : Bytes → Bool)
         · exact hopen name hn ha r r' as as' hr has
         · exact filterRespects_std true name hn r r' as as' hr has }
 
-/-- the engine without `sort`, `uniq` and `sort_natural` -/
+/-- the engine without `sort` and `sort_natural` (and `json`, `inspect`, `type`) -/
 def coreFilters (n : Bytes) : Bool := !openFilters.contains n
 
-/-- the engine without the filters that observe the Go representation (`uniq`, `json`, `inspect`, `type`) -/
+/-- the engine without the filters that observe the Go representation (`json`, `inspect`, `type`) -/
 def withoutRepr (n : Bytes) : Bool := !reprFilters.contains n
 
 /-- the length of an array result (for the examples of `Proofs/C18.lean`) -/
